@@ -1328,12 +1328,25 @@ func (d *DotGit) RemoveRef(name plumbing.ReferenceName) error {
 	// the packed value, so removing the loose file while packed-refs still
 	// carries an older value would bring that stale value back to life if
 	// the process stops in between.
+	// Whatever is wrong with the loose path is found before anything is
+	// changed. A directory there holds no value: an empty one is removed,
+	// one that still holds other references refuses the removal as a whole.
+	path := d.fs.Join(".", name.String())
+	fi, err := d.fs.Stat(path)
+	if err != nil && !os.IsNotExist(err) {
+		return err
+	}
+	if err == nil && fi.IsDir() {
+		if err := d.fs.Remove(path); err != nil {
+			return err
+		}
+	}
+
 	if err := d.rewritePackedRefsWithoutRef(name); err != nil {
 		return err
 	}
 
-	path := d.fs.Join(".", name.String())
-	_, err := d.fs.Stat(path)
+	_, err = d.fs.Stat(path)
 	if err == nil {
 		err = d.fs.Remove(path)
 		if err == nil {
